@@ -9,9 +9,9 @@ from odxgen import values as V
 ID = "C01"
 # LEAN_TARGETS / THEOREMS: filled in by the author of lean/OdxVerif/Model/Codec.lean + Props/C01.lean
 # (planned: OdxVerif.Props.C01, theorems OdxVerif.Codec.C01_roundtrip[_partial], …)
-LEAN_TARGETS = []
+LEAN_TARGETS = ['OdxVerif.Props.C01']
 DRIVERS = ["drv_codec"]
-THEOREMS = []
+THEOREMS = ["OdxVerif.Codec." + t for t in ['C01_roundtrip_struct', 'C01_roundtrip_flat', 'C01_roundtrip_partial', 'C01_frame', 'tree_roundtrip', 'flat_core', 'Tree.encode_eq', 'Tree.decode_eq', 'Trees.good']]
 RULE = ("well-formed descriptions (envelope wf of DESIGN §6/C01, by construction in harness/odxgen/gen.py) x canonical values "
         "(odxgen/values.py): corpus of past failures; every BYTE-SIZE structure size x offset; every (integer type, encoding, byte order, "
         "bit length, bit position) standard-length DOP with boundary values; floats/strings/byte fields x encodings x byte orders; random "
